@@ -20,7 +20,7 @@ SemOpts == { MkOpt(w, d, i, v, 64, (B2N(w) + 2 * B2N(d) + B2N(i)) % 4) :
            \cup { MkOpt(FALSE, FALSE, FALSE, FALSE, 64, 4) }
 SemRoots   == { <<"b1">>, <<>> }
 SemPutIds  == {"b1", "b2", "b3", "b5", "b7", "b8", "b11", "b18"}
-SemMany    == { <<"b4", "b2">>, <<"b1", "b8">>, <<"b3", "b3">> }
+SemMany    == { <<"b4", "b2">>, <<"b1", "b8">>, <<"b3", "b3">>, <<>> }     \* the empty batch: nothing on an open store, an error like any write on a closed one
 SemProbes  == {"b1", "b2", "b3", "b4", "b5", "b7", "b8", "b10", "b11", "b19", "b20"}
 
 (* C05: layouts x identity x v1, roots incl. none / v0 / duplicate; boundary-length blocks *)
